@@ -1,7 +1,7 @@
 """Per-property manifest metadata."""
 ENGINES = [
     dict(name="codec", path="spec/TraceCodec.tla + spec/SF{Num,Utf8,Events,Cbor,Ubjson,Json}.tla + spec/Gen{Cbor,Ubjson,Json}.tla + harness/",
-         serves_properties=["C02", "C03", "C04", "C05", "C06"],
+         serves_properties=["C01", "C02", "C03", "C04", "C05", "C06", "C07", "C08", "C09", "C10", "C16", "C17", "C18"],
          kind_free_text="TLA+ reference automata (one step per byte) + Visitor contract/value model; TLC generates documents, the Go harness runs the real parsers, TLC validates the recorded traces"),
 ]
 _note = ("Trusted: TLC, the /verif/spec modules (written from RFC 8259 / RFC 7049 / UBJSON draft 12 / README), the harness driver+projection. "
@@ -18,4 +18,22 @@ META = {
     "C06": dict(engine="codec", design_ref="7/C06", technique="UBJSON draft-12 automaton in TLA+ as reference decoder; TLC-enumerated values; trace validation",
                 level="Model checking with trace validation: TLC enumerates every path of the TLA+ UBJSON automaton within bounds (all markers, length markers, plain/counted/typed containers incl. containers of containers); the real parser's events must denote the reference value.", note=_note),
 }
+META.update({
+    "C01": dict(engine="codec", design_ref="7/C01", technique="TLC-enumerated well-formed event streams (contract machine) x boundary slot tables; encode+parse on real code; TLC trace validation with value equivalence rules",
+                level="Model checking with trace validation: every well-formed stream shape within bounds (enumerated by TLC from the TLA+ Visitor contract machine), filled from boundary tables, is written by the real encoder and read by the real parser of the same format; TLC requires the value (TLA+ Builder/Equiv) to be preserved under exactly the listed representation rules, for all JSON option settings.", note=_note + " Float<->decimal relation via math/big derived fields."),
+    "C07": dict(engine="codec", design_ref="7/C07", technique="TLA+ format automata as independent reference decoders of the real encoders' output; TLC trace validation",
+                level="Model checking with trace validation: the bytes the real encoders write for every TLC-enumerated stream are decoded by the TLA+ reference automaton of the format (independent of the library's parser); output must be one complete document with the stream's value; JSON byte-level guarantees checked on the bytes.", note=_note),
+    "C08": dict(engine="codec", design_ref="7/C08", technique="two TLA+ reference automata (source, target) around the real parser->encoder pipeline; TLC trace validation",
+                level="Model checking with trace validation: TLC-enumerated valid source documents (single and concatenated) are streamed through the real parser into the real encoder for all 9 pairs and several chunkings; TLC decodes source and target with the reference automata and compares values under the target's rules.", note=_note),
+    "C09": dict(engine="codec", design_ref="7/C09", technique="Visitor contract as a TLA+ stack machine (SFEvents!CStep) run as monitor over recorded producer output",
+                level="Model checking with trace validation: the contract machine is folded by TLC over every event the three parsers emit on accepted TLC-enumerated and mutated inputs and over the adapters' expansion of every extended event; any rule violation is reported with its name. Fold is monitored by the same machine in C12.", note=_note),
+    "C10": dict(engine="codec", design_ref="7/C10", technique="SFEvents!ExpandAll as the meaning of extended events; paired runs (extended vs expanded) on real consumers; reference decoding of both outputs",
+                level="Model checking with trace validation: for every TLC-enumerated two-document stream containing an extended event, each consumer is run with the extended call and with the model's expansion; both outputs must decode (TLA+ automaton) to the stream's value and leave equal nesting depths.", note=_note),
+    "C16": dict(engine="codec", design_ref="7/C16", technique="exhaustive fault-position enumeration (every write / every event) over TLC-enumerated cases; error-latch verdict in TLA+",
+                level="Model checking with trace validation + fault enumeration: for each TLC-enumerated stream/document every fault position k=1..W (sink) resp. 1..E (visitor) is executed on the real code; TLC checks the error latch (reported, same error, nothing delivered afterwards).", note=_note),
+    "C17": dict(engine="codec", design_ref="7/C17", technique="all short histories over a diverse alphabet on one instance vs a fresh instance; depth accessors; TLC trace validation",
+                level="Model checking with trace validation: all histories up to the bound over an alphabet of generator-derived shapes are run on one encoder/parser/decoder instance followed by every probe; TLC requires the probe's observation to equal a fresh instance's and every nesting stack to be idle after each document.", note=_note),
+    "C18": dict(engine="codec", design_ref="7/C18", technique="reader-behaviour enumeration (all compositions of the stream length) replayed on the real pull decoders; reference decoding per Next",
+                level="Model checking with trace validation: streams of 1-3 values under every composition of read sizes (short streams), buffer sizes, EOF styles and zero reads; TLC requires Next #i to deliver exactly reference value i, then io.EOF, and a non-EOF error for truncated streams.", note=_note),
+})
 NOT_YET = {}
